@@ -15,6 +15,7 @@ mod minimize;
 mod model;
 mod rng;
 mod run;
+mod sched;
 mod sup;
 mod world;
 
@@ -57,6 +58,34 @@ fn main() {
                 Err(e) => {
                     println!("HARNESS-ERROR {e}");
                     std::process::exit(2);
+                }
+            }
+        }
+        Some("rewitness") => {
+            // re-run the case of a witness file and refresh its recorded class / log hash
+            let Some(path) = a(2) else { usage() };
+            let s = std::fs::read_to_string(path).expect("read");
+            let rf: check::ReplayFile = serde_json::from_str(&s).expect("parse");
+            let res = sup::run_in_child(&rf.case, true, 300);
+            match res.violations.iter().find(|v| v.oracle == rf.oracle).or(res.violations.first()) {
+                Some(v) => {
+                    let name = std::path::Path::new(path).file_stem().unwrap().to_string_lossy().into_owned();
+                    let dir = std::path::Path::new(path).parent().unwrap().to_string_lossy().into_owned();
+                    let rf2 = check::ReplayFile {
+                        property: v.prop.clone(),
+                        sig: v.sig.clone(),
+                        oracle: v.oracle.clone(),
+                        detail: v.detail.clone(),
+                        expected_log_hash: res.log_hash,
+                        case: rf.case.clone(),
+                        log: res.log.clone(),
+                    };
+                    std::fs::write(format!("{dir}/{name}.json"), serde_json::to_string_pretty(&rf2).unwrap()).unwrap();
+                    println!("rewitness {path}: {} {}", v.sig, v.detail);
+                }
+                None => {
+                    println!("rewitness {path}: no violation any more");
+                    std::process::exit(1);
                 }
             }
         }
